@@ -1,8 +1,10 @@
 package midicat
 
 import (
+	"encoding/hex"
 	"fmt"
 	"io"
+	"strconv"
 )
 
 func read(rd io.Reader) (byte, error) {
@@ -23,11 +25,14 @@ func read(rd io.Reader) (byte, error) {
 }
 
 func convert(b []byte) (out []byte, err error) {
-	out = make([]byte, len(b)/2)
+	if len(b) == 0 {
+		return nil, fmt.Errorf("malformed line: no MIDI data")
+	}
 
-	_, err = fmt.Sscanf(string(b), "%X", &out)
+	// strict: an even number of hex digits and nothing else
+	out, err = hex.DecodeString(string(b))
 	if err != nil {
-		return nil, err
+		return nil, fmt.Errorf("malformed line: %v", err)
 	}
 
 	return out, nil
@@ -35,17 +40,20 @@ func convert(b []byte) (out []byte, err error) {
 }
 
 func convertDelta(b []byte) (deltams int32, err error) {
-	_, err = fmt.Sscanf(string(b), "%d", &deltams)
+	// strict: a decimal number and nothing else
+	d, err := strconv.ParseInt(string(b), 10, 32)
 	if err != nil {
-		return -1, err
+		return -1, fmt.Errorf("malformed line: %v", err)
 	}
 
-	return deltams, nil
+	return int32(d), nil
 
 }
 
 const limit = byte('\n')
 
+// Read reads one line. A malformed line is consumed completely and reported as an error, so that
+// the next call starts at the beginning of the next line.
 func Read(rd io.Reader) (out []byte, deltams int32, err error) {
 	var deltaRead bool
 	var deltaBf []byte
@@ -56,17 +64,29 @@ func Read(rd io.Reader) (out []byte, deltams int32, err error) {
 			return nil, -1, errRd
 		}
 
-		if b == ' ' {
-			deltams, err = convertDelta(deltaBf)
-			if err != nil {
-				return
+		if b == limit {
+			if err == nil && !deltaRead {
+				err = fmt.Errorf("malformed line: missing separator")
 			}
-			deltaRead = true
+			if err != nil {
+				return nil, -1, err
+			}
+			return out, deltams, nil
+		}
+
+		// skip the rest of a malformed line
+		if err != nil {
 			continue
 		}
 
-		if b == limit {
-			return out, deltams, err
+		if b == ' ' {
+			if deltaRead {
+				err = fmt.Errorf("malformed line: more than one separator")
+				continue
+			}
+			deltams, err = convertDelta(deltaBf)
+			deltaRead = true
+			continue
 		}
 
 		if deltaRead {
